@@ -52,6 +52,76 @@ def _depth_kernels(fn, tag):
     return out
 
 
+def _numbering_rule(fn):
+    """the auto/manual numbering decision of _parse_with_formatting: which text is tested
+    (`field_name` itself, or its first component obtained by re.split on a character class), and
+    whether the automatic index is prefixed to the field name or replaces it"""
+    loop = [n for n in ast.walk(fn) if isinstance(n, ast.For)]
+    if len(loop) != 1 or ast.unparse(loop[0].iter) != "formatter.parse(string)":
+        raise Unsupported("loop over formatter.parse(string) not found in " + fn.name)
+    fld = [s for s in loop[0].body if isinstance(s, ast.If) and ast.unparse(s.test) == "field_name is not None"]
+    if len(fld) != 1:
+        raise Unsupported("field branch of " + fn.name)
+    stmts = fld[0].body
+    seps = None
+    subject = "field_name"
+    i = 0
+    st = stmts[0]
+    if isinstance(st, ast.Assign) and len(st.targets) == 1 and isinstance(st.targets[0], ast.Name):
+        # first_component = re.split(r"[.\[]", field_name, maxsplit=1)[0]
+        v = st.value
+        ok = (isinstance(v, ast.Subscript) and isinstance(v.slice, ast.Constant) and v.slice.value == 0
+              and isinstance(v.value, ast.Call) and ast.unparse(v.value.func) == "re.split"
+              and len(v.value.args) == 2 and ast.unparse(v.value.args[1]) == "field_name"
+              and isinstance(v.value.args[0], ast.Constant) and isinstance(v.value.args[0].value, str)
+              and [(k.arg, ast.unparse(k.value)) for k in v.value.keywords] == [("maxsplit", "1")])
+        if not ok:
+            raise Unsupported("first statement of the field branch: " + ast.unparse(st)[:80])
+        pat = v.value.args[0].value
+        if not (len(pat) >= 3 and pat[0] == "[" and pat[-1] == "]" and pat[1] != "^"):
+            raise Unsupported("split pattern is not a character class: " + pat)
+        inner, chars, j = pat[1:-1], [], 0
+        while j < len(inner):
+            if inner[j] == "\\":
+                j += 1
+                if j >= len(inner) or inner[j].isalnum():
+                    raise Unsupported("escape in split pattern: " + pat)
+            elif inner[j] in "-]":
+                raise Unsupported("range in split pattern: " + pat)
+            chars.append(inner[j])
+            j += 1
+        seps = "".join(chars)
+        subject = st.targets[0].id
+        i = 1
+    st = stmts[i]
+    if not (isinstance(st, ast.If) and len(st.orelse) == 1 and isinstance(st.orelse[0], ast.If) and not st.orelse[0].orelse):
+        raise Unsupported("numbering if/elif of " + fn.name)
+    if ast.unparse(st.test) not in (subject + " == ''", "not " + subject) or ast.unparse(st.orelse[0].test) != subject + ".isdigit()":
+        raise Unsupported("numbering tests are not on %s: %s / %s" % (subject, ast.unparse(st.test), ast.unparse(st.orelse[0].test)))
+    auto = [ast.unparse(x) for x in st.body]
+    if len(auto) != 3 or not auto[0].startswith("if auto_arg_index is False:\n    raise ValueError(") \
+            or auto[2] != "auto_arg_index += 1":
+        raise Unsupported("automatic-numbering branch: " + " ; ".join(auto)[:120])
+    if auto[1] == "field_name = str(auto_arg_index) + field_name":
+        prefix = "true"
+    elif auto[1] == "field_name = str(auto_arg_index)":
+        prefix = "false"
+    else:
+        raise Unsupported("automatic field name: " + auto[1])
+    man = [ast.unparse(x) for x in st.orelse[0].body]
+    if len(man) != 2 or not man[0].startswith("if auto_arg_index:\n    raise ValueError(") or man[1] != "auto_arg_index = False":
+        raise Unsupported("manual-numbering branch: " + " ; ".join(man)[:120])
+    if ast.unparse(stmts[i + 1]) != "obj, _ = formatter.get_field(field_name, args, kwargs)":
+        raise Unsupported("lookup after numbering: " + ast.unparse(stmts[i + 1])[:80])
+    out = "/-- which text the `== \"\"` / `.isdigit()` numbering tests of `_parse_with_formatting` look at -/\n"
+    out += "def numberingSubject : Subject := %s\n" % ("Subject.wholeName" if seps is None else "Subject.firstComponent")
+    out += "/-- the characters `re.split` cuts the first component at -/\n"
+    out += "def headSeparators : Py.Str := %s\n" % lean_chars(seps or "")
+    out += "/-- `field_name = str(auto_arg_index) + field_name` (true) or `= str(auto_arg_index)` (false) -/\n"
+    out += "def autoIndexPrefixesName : Bool := %s\n\n" % prefix
+    return out
+
+
 def _field_parts(fn):
     """the statements that re-assemble a field in _parse_without_formatting, in source order"""
     parts = []
@@ -202,6 +272,7 @@ def generate():
         if not (isinstance(a, ast.Constant) and isinstance(a.value, int) and not isinstance(a.value, bool)):
             raise Unsupported("auto_arg_index default")
         body += "def autoArgIndexDefault : Nat := %d\n\n" % a.value
+        body += _numbering_rule(pwf)
         body += _field_parts(pwo)
         # prepare_format / prepare_message call the parsers with defaults only
         for name, callee, nargs in (("prepare_format", "Colorizer._parse_without_formatting", 1),
